@@ -185,10 +185,24 @@ def run_tasks(fn, tasks, cache, names, jobs=None):
                 results[k] = fn(tasks[k])
         else:
             ctx = mp.get_context("fork")
-            with ctx.Pool(jobs) as pool:
-                for k, r in zip(todo, pool.map(fn, [tasks[k] for k in todo], chunksize=1)):
-                    results[k] = r
+            # hard wall-clock cap per batch: every budget inside a task is a z3 resource limit or a SIGALRM that needs the interpreter back; a worker
+            # stuck in native code (observed once: three checks of a heavily loaded matrix run burnt 100+ CPU minutes each) must not hang the check
+            cap = float(os.environ.get("NUCSVC_HARD_CAP_S", "3000"))
+            pool = ctx.Pool(jobs)
+            try:
+                pending = [(k, pool.apply_async(fn, (tasks[k],))) for k in todo]
+                t_end = time.time() + cap
+                for k, ar in pending:
+                    try:
+                        results[k] = ar.get(timeout=max(1.0, t_end - time.time()))
+                    except mp.TimeoutError:
+                        q = tasks[k][0] if isinstance(tasks[k], tuple) else str(tasks[k])
+                        results[k] = dict(function=q, arity=tasks[k][1] if isinstance(tasks[k], tuple) and len(tasks[k]) > 1 else None, obligations=[], paths=0, incomplete=["hard cap"], raised=0,
+                                          used_contracts=[], error=f"Unsupported: task exceeded the hard wall-clock cap of {int(cap)} s (no verdict from this run)", hard_cap=True, inputs=None, violated=[], evaluated=0)
+            finally:
+                pool.terminate()
+                pool.join()
         for k in todo:
-            if not (results[k].get("error") or "").startswith("CRASH"):
+            if not (results[k].get("error") or "").startswith("CRASH") and not results[k].get("hard_cap"):
                 cache.put(names[k], results[k])
     return results
